@@ -72,6 +72,16 @@ def structure_probe():
     return out
 
 
+_PROBE_CACHE = None
+
+
+def structure_probe_cached():
+    global _PROBE_CACHE
+    if _PROBE_CACHE is None:
+        _PROBE_CACHE = structure_probe()
+    return _PROBE_CACHE
+
+
 def _term(v, bits):
     return core.term_of(v, bits)
 
